@@ -142,6 +142,9 @@ func genC14(g *Rng, tier string, emit func(Op)) {
 	for n := 1; n <= 3; n++ {
 		emit(legacyTwoDisclosuresOp(g, ka, n, n == 2))
 	}
+	for _, issig := range []bool{false, true} {
+		emit(witnessUpdateBetweenMessagesOp(g, ka, issig))
+	}
 	// two keys of one issuer (counters 0 and 1): the protocol identifies keys by issuer AND counter
 	kd := rotatedKey(ka, kb, 1)
 	pool := []*KeyPair{ka, kb, kc, kd}
@@ -536,4 +539,84 @@ func legacyTwoDisclosuresOp(g *Rng, kp *KeyPair, n int, issig bool) Op {
 	}()
 	return Op{"op": "recorded", "class": fmt.Sprintf("legacy-keyshare-%d-disclosures", n), "label": "verified", "nomodel": true,
 		"fkey": "legacy-keyshare-disclosures", "result": res, "key": kp.id, "issig": issig}
+}
+
+// witnessUpdateBetweenMessagesOp: a keyshare exchange over a credential with a non-revocation part,
+// the credential's witness being updated (another credential was revoked) between the user's first
+// and second message: both sides still compute one challenge, the joint list verifies.
+func witnessUpdateBetweenMessagesOp(g *Rng, kp *KeyPair, issig bool) Op {
+	pk := kp.pk
+	res := func() (r string) {
+		defer func() {
+			if e := recover(); e != nil {
+				r = fmt.Sprintf("panic: %v", e)
+			}
+		}()
+		for try := 0; try < 4; try++ {
+			ctx, nonce := g.bits(256), g.bits(80)
+			userSecret := g.bits(int(pk.Params.Lm) - 2)
+			kssSecret, err := gabi.NewKeyshareSecret()
+			if err != nil {
+				return "failed: " + err.Error()
+			}
+			ksP := new(big.Int).Exp(pk.R[0], kssSecret, pk.N)
+			ir := newIssuerRev(g, kp)
+			w := ir.witnessFor()
+			ms := []*big.Int{userSecret, g.bits(100), w.E}
+			sig, err := gabi.VerifSignMessageBlockAndCommitment(kp.sk, pk, ksP, ms)
+			if err != nil {
+				return "failed: " + err.Error()
+			}
+			sig.KeyshareP = ksP
+			cred := &gabi.Credential{Signature: sig, Pk: pk, Attributes: ms, NonRevocationWitness: w}
+			b, err := cred.CreateDisclosureProofBuilder([]int{1}, nil, true)
+			if err != nil {
+				return "failed: " + err.Error()
+			}
+			builders := gabi.ProofBuilderList{b}
+			part := map[string]*gabikeys.PublicKey{kp.id: pk}
+			rnd := map[string]*big.Int{"secretkey": g.bits(592)}
+			commReq, hashInput, err := gabi.KeyshareUserCommitmentRequest(builders, rnd, part)
+			if err != nil {
+				return "failed: " + err.Error()
+			}
+			kssRand, kssComm, err := gabi.NewKeyshareCommitments(kssSecret, []*gabikeys.PublicKey{pk})
+			if err != nil {
+				return "failed: " + err.Error()
+			}
+			b.SetProofPCommitment(kssComm[0])
+			// meanwhile
+			from := ir.acc.Index + 1
+			ir.revoke(revPrime(g))
+			if err := cred.NonRevocationWitness.Update(pk, ir.updateFrom(from)); err != nil {
+				return "failed: witness update: " + err.Error()
+			}
+			respReq, challenge, err := gabi.KeyshareUserResponseRequest(builders, rnd, hashInput, ctx, nonce, issig)
+			if err != nil {
+				return "failed: " + err.Error()
+			}
+			respReq.Context = ctx
+			proofP, err := gabi.KeyshareResponse(kssSecret, kssRand, commReq, respReq, part)
+			if err != nil {
+				return "failed: server: " + err.Error()
+			}
+			if proofP.C.Cmp(challenge) != 0 {
+				return "failed: user and server computed different challenges"
+			}
+			pl, err := builders.BuildDistributedProofList(challenge, []*gabi.ProofP{proofP})
+			if err != nil {
+				return "failed: " + err.Error()
+			}
+			if t, ok := proofListTrees(pl)[0].(T); ok && ambiguous(t) {
+				continue
+			}
+			if !pl.Verify([]*gabikeys.PublicKey{pk}, ctx, nonce, issig, []string{"kss"}) {
+				return "failed: the joint list does not verify"
+			}
+			return "verified"
+		}
+		return "verified"
+	}()
+	return Op{"op": "recorded", "class": "witness-updated-between-the-two-messages", "label": "verified", "nomodel": true,
+		"fkey": "C14/witness-updated-between-messages", "result": res, "key": kp.id, "issig": issig}
 }
